@@ -119,7 +119,14 @@ class LotUnpacker:
             # Check for the next loop.
             found_through = thru_rightmost(lot_mo)
 
-            if lot_mo['word_lot_rightmost'] is not None and not found_through:
+            # Only count the word 'Lot(s)' if it belongs to the rightmost
+            # lot. (A repeated group keeps its capture from an earlier
+            # repetition, if the final repetition did not capture it.)
+            word_lot_is_rightmost = (
+                lot_mo['word_lot_rightmost'] is not None
+                and lot_mo.start('word_lot_rightmost') >= start_of_rightmost(lot_mo)
+            )
+            if word_lot_is_rightmost and not found_through:
                 word_lot_encountered = len(working_lot_list)
 
         working_lot_list.reverse()
